@@ -171,15 +171,22 @@ impl ZoneSetNode {
     ) -> Result<(), ZoneTreeModificationError> {
         match apex_name.next() {
             Some(label) => {
-                if self.children.remove(label).is_none() {
+                let Some(child) = self.children.get_mut(label) else {
                     return Err(ZoneTreeModificationError::ZoneDoesNotExist);
+                };
+                child.remove_zone(apex_name)?;
+
+                // Drop the child if nothing is left below it.
+                if child.zone.is_none() && child.children.is_empty() {
+                    self.children.remove(label);
                 }
+                Ok(())
             }
-            None => {
-                self.zone = None;
-            }
+            None => match self.zone.take() {
+                Some(_) => Ok(()),
+                None => Err(ZoneTreeModificationError::ZoneDoesNotExist),
+            },
         }
-        Ok(())
     }
 }
 
